@@ -63,6 +63,7 @@ fn child(payload: &Sexp) -> Sexp {
 
 fn observe(is: &[Instruction], cuts: &[usize], pr: &mut Proj, iso: Option<&mut Isolated>) -> Sexp {
     let reference = Program::from_instructions(is.to_vec());
+    pr.check_map_keys(&reference);
     let text = reference.to_quil().expect("printable");
     let joined: String = texts_of(is).iter().map(|t| format!("{t}\n")).collect();
     let singles: Vec<usize> = (1..is.len()).collect();
@@ -151,6 +152,11 @@ fn run(ctx: &mut Ctx) {
         vec!["DECLARE ro BIT[2]", "DECLARE theta REAL[1]", "DECLARE ro BIT[4]", "DECLARE acc INTEGER[2]"],
         vec!["PRAGMA EXTERN foo \"INTEGER (x : INTEGER)\"", "PRAGMA EXTERN \"OCTET\"", "PRAGMA EXTERN bar \"(y : mut INTEGER)\"", "PRAGMA EXTERN foo \"REAL (x : REAL)\""],
         vec!["DEFCAL X 0:\n\tY 7", "DEFCAL X 5:\n\tNOP", "DEFCAL MEASURE 2 addr:\n\tX 11", "DEFCAL X 0:\n\tY 13", "DEFCAL MEASURE 2 addr:\n\tX 2"],
+        vec!["PRAGMA EXTERN foo legacy \"(c : REAL)\"", "PRAGMA EXTERN bar legacy \"(c : REAL)\"", "PRAGMA EXTERN foo \"INTEGER (x : INTEGER)\"", "PRAGMA EXTERN 1 foo \"(c : REAL)\"",
+             "PRAGMA EXTERN foo a b", "PRAGMA EXTERN baz 1 2", "PRAGMA EXTERN \"OCTET\"", "PRAGMA EXTERN bar"],
+        vec!["DEFGATE FOO:\n\t1, 0\n\t0, 1", "DEFWAVEFORM wf:\n\t1, 0.5, 0.25", "DECLARE ro BIT[2]", "DEFCIRCUIT BELL a b:\n\tH a\n\tCNOT a b", "DEFFRAME 0 \"rf\":\n\tINITIAL-FREQUENCY: 1000000000",
+             "DEFGATE BAR(%t):\n\tcos(%t), 0\n\t0, sin(%t)", "DEFGATE FOO a AS SEQUENCE:\n\tX a", "DEFWAVEFORM wf(%a, %b):\n\t%a, %b", "DECLARE ro INTEGER", "DEFCIRCUIT BELL(%a) q:\n\tRX(%a) q",
+             "DEFFRAME 0 \"rf\":\n\tCENTER-FREQUENCY: 3"],
         vec!["DEFCAL DAGGER X 0 1:\n\tX 23", "DEFCAL CONTROLLED X 0 1:\n\tX 24", "DEFCAL X 0 1:\n\tX 22", "DEFCAL RX(pi) 0:\n\tX 30", "DEFCAL DAGGER RX(pi) 0:\n\tX 31",
              "DEFCAL MEASURE 0 addr:\n\tNOP", "DEFCAL MEASURE 0:\n\tX 43", "DEFCAL MEASURE!mid 0 addr:\n\tX 47"],
         vec!["DEFGATE FOO:\n\t1, 0\n\t0, 1", "DEFCIRCUIT BELL a b:\n\tH a\n\tCNOT a b", "DEFWAVEFORM wf:\n\t1, 0.5, 0.25", "DEFGATE FOO:\n\t0, 1\n\t1, 0", "DEFCIRCUIT BELL a b:\n\tH b\n\tCNOT b a", "DEFWAVEFORM wf:\n\t0.5i, 1"],
@@ -198,6 +204,42 @@ fn run(ctx: &mut Ctx) {
                 k -= 1;
                 idx[k] += 1;
                 if idx[k] < alphabet.len() {
+                    break;
+                }
+                idx[k] = 0;
+            }
+        }
+    }
+
+    // (2b) exhaustive sequences over PRAGMA EXTERN shapes and same-key definitions of different shape
+    let alphabet2: Vec<Instruction> = [
+        "PRAGMA EXTERN foo \"INTEGER (x : INTEGER)\"",
+        "PRAGMA EXTERN foo legacy \"(c : REAL)\"",
+        "PRAGMA EXTERN bar legacy \"(c : REAL)\"",
+        "PRAGMA EXTERN 1 foo \"(c : REAL)\"",
+        "PRAGMA EXTERN \"OCTET\"",
+        "DEFGATE FOO AS PERMUTATION:\n\t1, 0",
+        "DEFGATE FOO(%t):\n\tcos(%t), 0\n\t0, sin(%t)",
+        "DEFGATE BAR(%t):\n\tcos(%t), 0\n\t0, sin(%t)",
+    ]
+    .iter()
+    .map(|t| one(t))
+    .collect();
+    for len in 1..=max_len.min(4) {
+        let mut idx = vec![0usize; len];
+        'outer2: loop {
+            let is: Vec<Instruction> = idx.iter().map(|&k| alphabet2[k].clone()).collect();
+            let cut = idx.iter().sum::<usize>() % (len + 1);
+            exh += 1;
+            emit(ctx, if exh % 8 == 0 { Some(&mut iso) } else { None }, is, vec![cut]);
+            let mut k = len;
+            loop {
+                if k == 0 {
+                    break 'outer2;
+                }
+                k -= 1;
+                idx[k] += 1;
+                if idx[k] < alphabet2.len() {
                     break;
                 }
                 idx[k] = 0;
